@@ -353,6 +353,8 @@ def main(run):
             run.hist("op_kind", o[0])
         for ns_ in meta.get("nstart", []):
             run.hist("nstart", ns_)
+        for cf in prefix[3:]:
+            run.hist("session_kind", "server-side" if cf.endswith(",s") else "client")
         if i % 400 == 5:
             run.sample({"case": ln[:400], "impl": co[:400], "checker": verdict.get(i, "?")})
         kind = None
@@ -405,8 +407,9 @@ def main(run):
     # {S con/non, A/R/T/P for every id submitted so far, U, F1, F4}, three configurations
     if not getattr(run, "replay", None):
         depth = 5 if quick else 6
-        sweep_cfgs = [(1, 1, True), (2, 1, False), (1, 2, True)]
-        sw = [(p, o) for (ns_, rt, e0) in sweep_cfgs for p, o in gen_nstart.enum_cases(depth, ns_, rt, e0)]
+        sweep_cfgs = [(1, 1, True, "c"), (2, 1, False, "c"), (1, 2, True, "s")]
+        sw = [(p, o) for (ns_, rt, e0, kd) in sweep_cfgs
+              for p, o in gen_nstart.enum_cases(depth, ns_, rt, e0, client=(kd == "c"))]
         sl = [gen_nstart.line_of(p, o) for p, o in sw]
         sc, scr = run_cases(drv, sl, chunk=5000, t_chunk=60)
         sm, _ = vlib.run_lines_robust(model, sl)
